@@ -32,7 +32,9 @@ func vpMarshalOf(it Item) []byte {
 }
 
 // vpPlaceAt puts emb at the named position of x, directly or as a member of a list.
-func vpPlaceAt(x Item, pos string, emb Item, inList bool) { vpPlaceAtForm(x, pos, emb, vpListForm(inList)) }
+func vpPlaceAt(x Item, pos string, emb Item, inList bool) {
+	vpPlaceAtForm(x, pos, emb, vpListForm(inList))
+}
 
 func vpListForm(inList bool) int {
 	if inList {
